@@ -702,3 +702,126 @@ func (n *cnNet) mutateBody(raw []byte, rng *rand.Rand) ([]byte, *cnTxSpec, bool)
 	}
 	return cbor.Marshal(out), &cnTxSpec{Kind: "mutated", Signer: who.name, Gov: string(tx.Method), VAct: what, Nonce: tx.Nonce, Fee: fee, Gas: gas, Validity: "mutbody"}, true
 }
+
+// allBodyMutations returns every single structural mutation of an authentic transaction's body (each map entry dropped; each map
+// value and array element replaced by null / an empty map / an empty array / an empty byte string / 0 / 2^63 / a text string),
+// each correctly signed by the original signer, up to limit.
+func (n *cnNet) allBodyMutations(raw []byte, limit int) [][]byte {
+	var st transaction.SignedTransaction
+	if cbor.Unmarshal(raw, &st) != nil {
+		return nil
+	}
+	var tx transaction.Transaction
+	if cbor.Unmarshal(st.Blob, &tx) != nil || len(tx.Body) == 0 {
+		return nil
+	}
+	var who *cnAccount
+	for _, a := range append(n.accounts(), n.nodeAccounts()...) {
+		if a.signer.Public().Equal(st.Signature.PublicKey) {
+			aa := a
+			who = &aa
+		}
+	}
+	if who == nil {
+		return nil
+	}
+	body := append([]byte{}, tx.Body...)
+	count := func() int {
+		var tree any
+		if cbor.Unmarshal(body, &tree) != nil {
+			return 0
+		}
+		c := 0
+		var walk func(v any)
+		walk = func(v any) {
+			switch t := v.(type) {
+			case map[any]any:
+				for _, x := range t {
+					c++
+					walk(x)
+				}
+			case []any:
+				for _, x := range t {
+					c++
+					walk(x)
+				}
+			}
+		}
+		walk(tree)
+		return c
+	}()
+	repl := []any{"DROP", nil, map[any]any{}, []any{}, []byte{}, uint64(0), uint64(1) << 63, "x"}
+	var out [][]byte
+	for p := 0; p < count && len(out) < limit; p++ {
+		for _, r := range repl {
+			var tree any
+			if cbor.Unmarshal(body, &tree) != nil {
+				return out
+			}
+			c, done := 0, false
+			var walk func(v any)
+			walk = func(v any) {
+				if done {
+					return
+				}
+				switch t := v.(type) {
+				case map[any]any:
+					keys := make([]string, 0, len(t))
+					byS := map[string]any{}
+					for k := range t {
+						ks := fmt.Sprint(k)
+						keys = append(keys, ks)
+						byS[ks] = k
+					}
+					sort.Strings(keys)
+					for _, ks := range keys {
+						if done {
+							return
+						}
+						if c == p {
+							if r == "DROP" {
+								delete(t, byS[ks])
+							} else {
+								t[byS[ks]] = r
+							}
+							done = true
+							return
+						}
+						c++
+						walk(t[byS[ks]])
+					}
+				case []any:
+					for i := range t {
+						if done {
+							return
+						}
+						if c == p {
+							if r == "DROP" {
+								t[i] = nil
+							} else {
+								t[i] = r
+							}
+							done = true
+							return
+						}
+						c++
+						walk(t[i])
+					}
+				}
+			}
+			walk(tree)
+			if !done {
+				continue
+			}
+			tx.Body = cbor.Marshal(tree)
+			blob := cbor.Marshal(&tx)
+			sig := signRaw(who.signer, rawContext("oasis-core/consensus: tx", n.chainCtx), blob)
+			var o transaction.SignedTransaction
+			o.Blob = blob
+			o.Signature.PublicKey = who.signer.Public()
+			copy(o.Signature.Signature[:], sig)
+			out = append(out, cbor.Marshal(o))
+		}
+	}
+	return out
+}
